@@ -249,3 +249,159 @@ pub fn judge(cfg: &Cfg, log: &[Rec]) -> Report {
 fn start_inner(enter: &HashMap<u64, (u64, u64)>, id: u64) -> u64 {
     enter.get(&id).map(|e| e.0).unwrap_or(0)
 }
+
+// ---------------------------------------------------------------------------------------
+// real-clock engine: an inner call that stays busy and yields cooperatively (it uses up tokio's
+// per-task budget on every poll) must still be cut off at the deadline. Not expressible on the
+// paused clock: a task that never goes idle keeps virtual time from advancing.
+// ---------------------------------------------------------------------------------------
+
+struct BusyFlags {
+    stop: std::sync::atomic::AtomicBool,
+    started: std::sync::atomic::AtomicBool,
+    dropped: std::sync::atomic::AtomicBool,
+    completed: std::sync::atomic::AtomicBool,
+}
+
+#[derive(Clone)]
+struct Busy(Arc<BusyFlags>);
+
+struct BusyGuard(Arc<BusyFlags>);
+impl Drop for BusyGuard {
+    fn drop(&mut self) {
+        if !self.0.completed.load(std::sync::atomic::Ordering::SeqCst) {
+            self.0.dropped.store(true, std::sync::atomic::Ordering::SeqCst);
+        }
+    }
+}
+
+impl tower::Service<Req> for Busy {
+    type Response = crate::world::Resp;
+    type Error = PErr;
+    type Future = std::pin::Pin<Box<dyn std::future::Future<Output = Result<crate::world::Resp, PErr>> + Send>>;
+    fn poll_ready(&mut self, _: &mut std::task::Context<'_>) -> std::task::Poll<Result<(), PErr>> {
+        std::task::Poll::Ready(Ok(()))
+    }
+    fn call(&mut self, r: Req) -> Self::Future {
+        let f = self.0.clone();
+        Box::pin(async move {
+            use std::sync::atomic::Ordering::SeqCst;
+            let _g = BusyGuard(f.clone());
+            f.started.store(true, SeqCst);
+            // busy, but polite: gives the scheduler a chance on every iteration
+            while !f.stop.load(SeqCst) {
+                tokio::task::consume_budget().await;
+            }
+            f.completed.store(true, SeqCst);
+            Ok(crate::world::Resp { serial: 1, req_id: r.id, payload: r.payload, src: 0 })
+        })
+    }
+}
+
+pub fn busy_inner(sseed: u64) -> Report {
+    use std::sync::atomic::{AtomicBool, Ordering::SeqCst};
+    use tower::{Service, ServiceExt};
+    let mut rng = Prng::new(sseed);
+    let mut rep = Report::default();
+    let cancel = rng.chance(0.5);
+    let per_request = rng.chance(0.5);
+    let multi = rng.chance(0.5);
+    let timeout_ms = *rng.pick(&[5u64, 20, 50]);
+    let flags = Arc::new(BusyFlags { stop: AtomicBool::new(false), started: AtomicBool::new(false), dropped: AtomicBool::new(false), completed: AtomicBool::new(false) });
+    let rt = if multi {
+        tokio::runtime::Builder::new_multi_thread().worker_threads(2).enable_time().build()
+    } else {
+        tokio::runtime::Builder::new_current_thread().enable_time().build()
+    };
+    let rt = match rt {
+        Ok(rt) => rt,
+        Err(e) => {
+            rep.inconclusive = Some(format!("cannot build a runtime: {e}"));
+            return rep;
+        }
+    };
+    let f2 = flags.clone();
+    // (outcome, resolved within the watchdog, ms until resolved)
+    let res: (Option<Result<(), String>>, u128) = rt.block_on(async move {
+        let t = Duration::from_millis(timeout_ms);
+        let started = std::time::Instant::now();
+        let fut: std::pin::Pin<Box<dyn std::future::Future<Output = Result<crate::world::Resp, TimeLimiterError<PErr>>> + Send>> = if per_request {
+            let mut svc = TimeLimiterLayer::builder().timeout_fn(move |_r: &Req| t).cancel_running_future(cancel).build().layer(Busy(f2.clone()));
+            let _ = svc.ready().await;
+            Box::pin(svc.call(Req::new(1, 0, vec![])))
+        } else {
+            let mut svc = TimeLimiterLayer::builder().timeout_duration(t).cancel_running_future(cancel).build().layer(Busy(f2.clone()));
+            let _ = svc.ready().await;
+            Box::pin(svc.call(Req::new(1, 0, vec![])))
+        };
+        // the call is driven by a task of its own, like any request handler
+        let h = tokio::spawn(fut);
+        // generous watchdog on the real clock: 400x the longest timeout
+        let mut waited = 0u64;
+        while !h.is_finished() && waited < 20_000 {
+            tokio::time::sleep(Duration::from_millis(10)).await;
+            waited += 10;
+        }
+        if !h.is_finished() {
+            // give a frozen-then-resumed process the chance to fire the layer's own timer first
+            for _ in 0..20 {
+                tokio::time::sleep(Duration::from_millis(25)).await;
+            }
+        }
+        let elapsed = started.elapsed().as_millis();
+        if !h.is_finished() {
+            f2.stop.store(true, SeqCst);
+            let _ = h.await;
+            return (None, elapsed);
+        }
+        let out = match h.await {
+            Ok(Ok(_)) => Ok(()),
+            Ok(Err(TimeLimiterError::Timeout)) => Err("Timeout".to_string()),
+            Ok(Err(e)) => Err(format!("{e:?}")),
+            Err(e) => Err(format!("join error {e}")),
+        };
+        if !cancel && out == Err("Timeout".to_string()) && !f2.dropped.load(SeqCst) {
+            // the detached call keeps running on this runtime: tell it to finish and let it
+            f2.stop.store(true, SeqCst);
+            let mut w = 0;
+            while !f2.completed.load(SeqCst) && !f2.dropped.load(SeqCst) && w < 10_000 {
+                tokio::time::sleep(Duration::from_millis(5)).await;
+                w += 5;
+            }
+        } else {
+            tokio::time::sleep(Duration::from_millis(20)).await;
+        }
+        (Some(out), elapsed)
+    });
+    let mode = if cancel { "cancel" } else { "detach" };
+    match &res.0 {
+        None => rep.violate(
+            format!("C06:{mode}:busy-inner-not-cut-off"),
+            format!("timeout {timeout_ms} ms, inner call busy but yielding cooperatively: the call was still unresolved after {} ms of real time", res.1),
+        ),
+        Some(Ok(())) => rep.violate(format!("C06:{mode}:busy-inner-not-cut-off"), format!("timeout {timeout_ms} ms: the call resolved with the inner result although the inner call only ends when told to")),
+        Some(Err(e)) if e == "Timeout" => {
+            if cancel {
+                // the inner call is dropped at the deadline
+                if !flags.dropped.load(SeqCst) {
+                    rep.violate("C06:cancel:inner-not-dropped", format!("timeout {timeout_ms} ms: timed out, but the busy inner call was not dropped"));
+                }
+            } else if flags.dropped.load(SeqCst) {
+                // it must keep running in the background and finish once it can
+                rep.violate("C06:detach:inner-did-not-run-to-completion", format!("timeout {timeout_ms} ms: timed out and the busy inner call was dropped although cancellation is disabled"));
+            } else if !flags.completed.load(SeqCst) {
+                rep.inconclusive = Some("detached busy inner call did not finish within 10 s after it was told to".into());
+            }
+        }
+        Some(Err(e)) => rep.violate(format!("C06:{mode}:unexpected-outcome"), format!("busy inner call, timeout {timeout_ms} ms: {e}")),
+    }
+    flags.stop.store(true, SeqCst);
+    rt.shutdown_timeout(Duration::from_secs(2));
+    rep.nontrivial = flags.started.load(SeqCst);
+    rep.sig = crate::prng::mix(sseed % 1000, (cancel as u64) * 8 + (per_request as u64) * 4 + (multi as u64) * 2 + timeout_ms);
+    rep.count("busy_inner_runs", 1);
+    rep.count("busy_inner_resolved_after_ms_total", res.1 as u64);
+    rep.bucket(format!("busy-inner {mode} per_request={per_request} multi_thread={multi} timeout={timeout_ms}ms"));
+    rep.case = json!({"engine": "busy-inner", "cancel": cancel, "per_request": per_request, "multi_thread_runtime": multi, "timeout_ms": timeout_ms, "resolved_after_ms": res.1 as u64, "outcome": format!("{:?}", res.0)});
+    rep
+}
